@@ -242,7 +242,7 @@ func runNatsReqSuite(r *Rng, n int) {
 		go func() {
 			defer wg.Done()
 			defer func() { <-sem }()
-			obs, fine, why := runNatsCase(kind, to)
+			obs, fine, why := retryTiming(func() (string, bool, string) { return runNatsCase(kind, to) })
 			line := fmt.Sprintf("nrq %s %d", kind, to)
 			// the window of `reuse` is a race; a missed window is reported as such and the model follows
 			Case(line+" "+boolS(len(obs) > 0 && containsStr(obs, "window-missed")), obs)
